@@ -224,7 +224,7 @@ fn gen_msg(rng: &mut Rng, serial: bool, clean: bool, big_micros: bool, tier: u32
         0 => 0,
         1 => 1,
         2 => rng.below(300),
-        3 | 5 if huge => 65535 - hsize as u64 - rng.below(3),
+        3 | 5 | 6 | 7 if huge => 65535 - hsize as u64 - rng.below(20),
         4 if tier > 0 && rng.chance(10) => rng.below(5000),
         _ => rng.below(12),
     } as usize;
@@ -265,7 +265,7 @@ fn gen_case(rng: &mut Rng, tier: u32) -> Case {
     let clean = !rng.chance(3); // two thirds in the property's range, one third malformed
     let big = !serial && rng.chance(10);
     // maximum-size messages only in dedicated cases with short garbage (the list-based model is quadratic in garbage x size)
-    let huge = tier > 0 && rng.chance(250);
+    let huge = rng.chance(100);
     let mut items = vec![];
     let nm = rng.below(5);
     for _ in 0..=nm {
